@@ -12,7 +12,7 @@ use crate::{
         definitions::{InMemoryLmsPublicKey, LmsPublicKey},
         signing::{InMemoryLmsSignature, LmsSignature},
     },
-    util::helper::read_and_advance,
+    util::{helper::read_and_advance, ByteBuffer},
     HashChain,
 };
 
@@ -90,8 +90,8 @@ impl<H: HashChain> HssSignature<H> {
         })
     }
 
-    pub fn to_binary_representation(&self) -> ArrayVec<[u8; MAX_HSS_SIGNATURE_LENGTH]> {
-        let mut result = ArrayVec::new();
+    pub fn to_binary_representation(&self) -> ByteBuffer<MAX_HSS_SIGNATURE_LENGTH> {
+        let mut result = ByteBuffer::new();
 
         result.extend_from_slice(&(self.level as u32).to_be_bytes());
 
